@@ -143,4 +143,96 @@ def specRun (N : Int) : Int → List Op → Int × List Out
     let (c'', os) := specRun N c' ops
     (c'', o :: os)
 
+/-! ### `iter_sample_blocks` as a lazy generator
+
+`g = reader.iter_sample_blocks(bs)` creates a generator object and runs nothing.  Each `next(g)`
+resumes `while self.tell() != len(self): yield self.read(blockSize)`: it looks at the reader's *current*
+buffer position (the generator has no cursor of its own, so seeks and reads between two `next` calls are
+seen), and either yields one block or finishes; a finished generator raises `StopIteration` on every later
+`next`, wherever the cursor is by then. -/
+
+/-- a generator object: its block size, and whether it has returned -/
+structure Gen where
+  bs : Int
+  done : Bool
+  deriving Repr, DecidableEq
+
+/-- `next(g)` with the buffer at `pos`: new position, new generator state, the byte range of the block
+yielded (`none` = `StopIteration`). -/
+def gnext (k : Cfg) (pos : Int) (g : Gen) : Int × Gen × Option (Int × Int) :=
+  if g.done then (pos, g, none)
+  else if tell k pos = len k then (pos, { g with done := true }, none)
+  else
+    let (p, r) := read k pos g.bs
+    (p, g, some r)
+
+/-- client operations including generator handling -/
+inductive GOp where
+  | op (o : Op)        -- seek / tell / read / `list(iter_sample_blocks(bs))`
+  | mk (bs : Int)      -- `g_i = reader.iter_sample_blocks(bs)` (i = number of generators made before)
+  | next (i : Nat)     -- `next(g_i)`
+  deriving Repr
+
+inductive GOut where
+  | out (o : Out)
+  | made (i : Nat)
+  | block (r : Int × Int)
+  | stop               -- StopIteration
+  | noGen              -- no such generator (not a client operation; the driver answers `bad-op`)
+  deriving Repr, DecidableEq
+
+/-- state: buffer position and the generators made so far -/
+def gstep (k : Cfg) (s : Int × List Gen) : GOp → (Int × List Gen) × GOut
+  | .op o => let (p, out) := step k s.1 o; ((p, s.2), .out out)
+  | .mk bs => ((s.1, s.2 ++ [⟨bs, false⟩]), .made s.2.length)
+  | .next i =>
+    match s.2[i]? with
+    | none => (s, .noGen)
+    | some g =>
+      let (p, g', r) := gnext k s.1 g
+      ((p, s.2.set i g'), match r with | some r => .block r | none => .stop)
+
+def grun (k : Cfg) : Int × List Gen → List GOp → (Int × List Gen) × List GOut
+  | s, [] => (s, [])
+  | s, op :: ops =>
+    let (s', o) := gstep k s op
+    let (s'', os) := grun k s' ops
+    (s'', o :: os)
+
+/-- `next(g)` repeated until `StopIteration` (at most `fuel` blocks): what a `for` loop over the generator does -/
+def drain (k : Cfg) : Nat → Int → Gen → Int × Gen × List (Int × Int)
+  | 0, pos, g => (pos, g, [])
+  | fuel + 1, pos, g =>
+    match gnext k pos g with
+    | (p, g', none) => (p, g', [])
+    | (p, g', some r) =>
+      let (p', g'', rs) := drain k fuel p g'
+      (p', g'', r :: rs)
+
+/-! specification of the generator over a cursor `c ∈ [0, N]` -/
+
+def specGnext (N c : Int) (g : Gen) : Int × Gen × Option (Int × Int) :=
+  if g.done then (c, g, none)
+  else if c = N then (c, { g with done := true }, none)
+  else
+    let (c', r) := specRead N c g.bs
+    (c', g, some r)
+
+def specGstep (N : Int) (s : Int × List Gen) : GOp → (Int × List Gen) × GOut
+  | .op o => let (c, out) := specStep N s.1 o; ((c, s.2), .out out)
+  | .mk bs => ((s.1, s.2 ++ [⟨bs, false⟩]), .made s.2.length)
+  | .next i =>
+    match s.2[i]? with
+    | none => (s, .noGen)
+    | some g =>
+      let (c, g', r) := specGnext N s.1 g
+      ((c, s.2.set i g'), match r with | some r => .block r | none => .stop)
+
+def specGrun (N : Int) : Int × List Gen → List GOp → (Int × List Gen) × List GOut
+  | s, [] => (s, [])
+  | s, op :: ops =>
+    let (s', o) := specGstep N s op
+    let (s'', os) := specGrun N s' ops
+    (s'', o :: os)
+
 end Earverif.Cursor
